@@ -73,6 +73,8 @@ type KnownFile struct {
 
 var validatedSamples int
 
+const rootModule = "github.com/sharedcode/sop"
+
 var verifDir = "/verif"
 var repoDir = "/repo"
 
@@ -147,7 +149,7 @@ func overlayMap(c *CheckCfg) (map[string][]byte, map[string]string, error) {
 		return nil
 	}
 	// zzvf lives inside the module being loaded
-	zz := filepath.Join(c.Dir, "zzvf")
+	zz := "zzvf" // always in the root module (github.com/sharedcode/sop/zzvf); other workspace modules import it from there
 	for _, f := range []string{"vf.go", "bits.go"} {
 		if err := add(filepath.Join(zz, f), filepath.Join("harness/zzvf", f)); err != nil {
 			return nil, nil, err
@@ -583,7 +585,7 @@ func TestZZVerifReplay(t *testing.T) {
 		t.Fatalf("ZZVF-FAILED %%v", zzvf.Failed)
 	}
 }
-`, pkgName, modulePathOf(c), h.Func)
+`, pkgName, rootModule, h.Func)
 	testFile := filepath.Join(tmp, "zz_verif_replay_test.go")
 	os.WriteFile(testFile, []byte(testSrc), 0o644)
 	repl := map[string]string{}
